@@ -18,6 +18,31 @@ CLAIMED = {
              "the theorems speak about), the program generator's two renderings (source / S-expression), lli 14 as executor.",
         technique="Lean 4 proof (BitVec operator soundness, all widths) + interpreter-vs-lli correspondence on generated programs",
         design="§4 C01"),
+    "C02": dict(
+        text="Lean model of how failures travel through the tree (Error / Poisoned leaves, combining and short-circuiting "
+             "resolution) with theorems: a failure with an empty error list always stems from a `Poisoned` leaf "
+             "(`no_silent_failure`), every reported code comes from an Error leaf, and where errors are combined a silent "
+             "failure is exactly 'poisoned without an error' (`silent_failure_iff`, `all_error_visible`). The real compiler is "
+             "run through lex..generate_ir/link on all token sequences up to a small length, mutated corpus files, faulted "
+             "generated programs, token soup, nesting up to depth 256 and 2-3 module sets, in worker processes that classify "
+             "ok / err with codes / err with NO codes / panic (with its call site) / crash / internal error. Partial: process "
+             "level behaviour (stack, LLVM aborts, hangs) is exercised, not modelled; lexer totality is not yet a theorem.",
+        note="Trusted: Lean kernel, harness worker classification (catch_unwind per request, dead-worker detection, panic hook "
+             "recording the call site). Twelve distinct genuine defects of the pinned tree are recorded as known findings, each "
+             "identified by its call site (source text of the panic location) or by a causal input class checked by "
+             "neutralisation; anything else is a violation.",
+        technique="Lean 4 proof (poison propagation) + fault-enumeration style correspondence with crash classification",
+        design="§4 C02"),
+    "C03": dict(
+        text="Lean theorems about the symbol decisions of the generator (`linkage_spec`: external iff pub, main or forward "
+             "declared; `callconv_spec`). For every input the compiler ACCEPTS (generated programs: valid, without main, wasm "
+             "target, with run-time UB and non-termination, split over modules; the valid corpus and its mutants) LLVM's own "
+             "assembler and verifier must accept every module's IR and the linked IR, every source function must be defined "
+             "and main/pub functions external. Partial: the validity of the instruction stream is decided by the LLVM tools "
+             "as oracle (implementation-vs-oracle), not by a theorem.",
+        note="Trusted: Lean kernel, llvm-as / opt 14 as oracle, the regex that lists source functions.",
+        technique="Lean 4 proof (decision logic) + LLVM assembler/verifier as independent oracle on every accepted input",
+        design="§4 C03"),
     "C04": dict(
         text="Lean theorem `Labels.labels_scope_iff`: for every function body (unbounded length and nesting) the model of "
              "label_references.rs raises exactly the E400/E420 codes of a forward, positional specification; the model is tied "
